@@ -56,7 +56,11 @@ pub fn jobs(tier: Tier, seed: u64) -> Vec<Job> {
         out.push(Job { opts: crate::checks::c19::to_opts(&d), alpha: crate::checks::c19::alphabet_for(d.g), len: tier.pick(3, 4), env: vec![] });
     }
     for v in crate::checks::c07::C07.units(Tier::Quick, seed).into_iter().step_by(tier.pick(7, 2)) {
-        let d: crate::checks::c07::Def = serde_json::from_value(v).unwrap();
+        // (units of other kinds, e.g. the adjacent-command chains, are not definitions)
+        let d: crate::checks::c07::Def = match serde_json::from_value(v) {
+            Ok(d) => d,
+            Err(_) => continue,
+        };
         out.push(Job { opts: crate::checks::c07::to_opts(&d), alpha: crate::checks::c07::alphabet_for(&d), len: 3, env: vec![] });
     }
     // the same short name as a flag at one level and as an argument at another: clusters are
@@ -104,7 +108,10 @@ pub fn jobs(tier: Tier, seed: u64) -> Vec<Job> {
         if v.get("group").is_some() {
             continue;
         }
-        let d: crate::checks::c06::Def = serde_json::from_value(v).unwrap();
+        let d: crate::checks::c06::Def = match serde_json::from_value(v) {
+            Ok(d) => d,
+            Err(_) => continue,
+        };
         if d.prim == crate::checks::c06::Prim::EnvArg {
             continue;
         }
